@@ -186,16 +186,17 @@ func errInfo(v *lisp.LVal) J {
 // runtime construction
 
 type runCfg struct {
-	TRO      string `json:"tro"`      // "on" (default) | "off" (dormant debugger) | "prof" (profiler attached)
-	MaxSteps int64  `json:"maxsteps"` // 0 = unlimited but still counted (a background context is installed)
-	MaxPhys  int    `json:"maxphys"`
-	MaxLog   int    `json:"maxlog"`
-	MaxNest  int    `json:"maxnest"`
-	MaxTail  int    `json:"maxtail"`
-	MaxMacro int    `json:"maxmacro"`
-	CancelAt int64  `json:"cancel_at"` // context reports cancellation from the k-th Err() poll on (0 = never)
-	NoStdlib bool   `json:"nostdlib"`
-	NoCount  bool   `json:"nocount"` // do not install a context: steps are then not counted unless maxsteps > 0
+	TRO        string `json:"tro"`      // "on" (default) | "off" (dormant debugger) | "prof" (profiler attached)
+	MaxSteps   int64  `json:"maxsteps"` // 0 = unlimited but still counted (a background context is installed)
+	MaxPhys    int    `json:"maxphys"`
+	MaxLog     int    `json:"maxlog"`
+	MaxNest    int    `json:"maxnest"`
+	MaxTail    int    `json:"maxtail"`
+	MaxMacro   int    `json:"maxmacro"`
+	CancelAt   int64  `json:"cancel_at"` // context reports cancellation from the k-th Err() poll on (0 = never)
+	NoStdlib   bool   `json:"nostdlib"`
+	NoCount    bool   `json:"nocount"`     // do not install a context: steps are then not counted unless maxsteps > 0
+	NoCtxFirst int    `json:"noctx_first"` // the first k evaluations of a history use the context-less entry point (LoadString)
 }
 
 // pollCtx is a context whose Err() becomes non-nil at exactly the k-th poll.
@@ -214,13 +215,15 @@ func (c *pollCtx) Err() error {
 
 type dormantDebugger struct{}
 
-func (dormantDebugger) IsEnabled() bool                                      { return false }
-func (dormantDebugger) OnEval(*lisp.LEnv, *lisp.LVal) bool                   { return false }
-func (dormantDebugger) WaitIfPaused(*lisp.LEnv, *lisp.LVal) lisp.DebugAction { return lisp.DebugContinue }
-func (dormantDebugger) OnFunEntry(*lisp.LEnv, *lisp.LVal, *lisp.LEnv)        {}
-func (dormantDebugger) OnFunReturn(*lisp.LEnv, *lisp.LVal, *lisp.LVal)       {}
-func (dormantDebugger) AfterFunCall(*lisp.LEnv) bool                         { return false }
-func (dormantDebugger) OnError(*lisp.LEnv, *lisp.LVal) bool                  { return false }
+func (dormantDebugger) IsEnabled() bool                    { return false }
+func (dormantDebugger) OnEval(*lisp.LEnv, *lisp.LVal) bool { return false }
+func (dormantDebugger) WaitIfPaused(*lisp.LEnv, *lisp.LVal) lisp.DebugAction {
+	return lisp.DebugContinue
+}
+func (dormantDebugger) OnFunEntry(*lisp.LEnv, *lisp.LVal, *lisp.LEnv)  {}
+func (dormantDebugger) OnFunReturn(*lisp.LEnv, *lisp.LVal, *lisp.LVal) {}
+func (dormantDebugger) AfterFunCall(*lisp.LEnv) bool                   { return false }
+func (dormantDebugger) OnError(*lisp.LEnv, *lisp.LVal) bool            { return false }
 
 type countingProfiler struct{ starts, ends int }
 
@@ -236,11 +239,12 @@ func (p *countingProfiler) Start(fun *lisp.LVal) func() {
 }
 
 type session struct {
-	env    *lisp.LEnv
-	ctx    *pollCtx
-	stderr *strings.Builder
-	probes []J
-	prof   *countingProfiler
+	env               *lisp.LEnv
+	ctx               *pollCtx
+	stderr            *strings.Builder
+	probes            []J
+	prof              *countingProfiler
+	nload, noCtxFirst int
 }
 
 func frameView(fs []lisp.CallFrame) []interface{} {
@@ -252,7 +256,7 @@ func frameView(fs []lisp.CallFrame) []interface{} {
 }
 
 func newSession(cfg runCfg) (*session, error) {
-	s := &session{stderr: &strings.Builder{}}
+	s := &session{stderr: &strings.Builder{}, noCtxFirst: cfg.NoCtxFirst}
 	env := lisp.NewEnv(nil)
 	env.Runtime.Reader = parser.NewReader()
 	env.Runtime.Stderr = s.stderr
@@ -283,12 +287,22 @@ func newSession(cfg runCfg) (*session, error) {
 			return nil, fmt.Errorf("stdlib: %v", rc)
 		}
 	}
+	s.env = env
+	// probe and boom live in the language package and are exported, so that every package created by
+	// in-package sees them (the specifications treat them as part of package lisp)
+	if rc := env.InPackage(lisp.String(lisp.DefaultLangPackage)); rc.Type == lisp.LError {
+		return nil, fmt.Errorf("in-package: %v", rc)
+	}
+	env.AddBuiltins(true, &hostFn{"probe", lisp.Formals(lisp.VarArgSymbol, "xs"), s.probe},
+		&hostFn{"boom", lisp.Formals(), func(*lisp.LEnv, *lisp.LVal) *lisp.LVal {
+			panic("boom (host builtin panic requested by the test program)")
+		}})
 	if rc := env.InPackage(lisp.String(lisp.DefaultUserPackage)); rc.Type == lisp.LError {
 		return nil, fmt.Errorf("in-package: %v", rc)
 	}
-	s.env = env
-	env.AddBuiltins(true, &hostFn{"probe", lisp.Formals(lisp.VarArgSymbol, "xs"), s.probe},
-		&hostFn{"boom", lisp.Formals(), func(*lisp.LEnv, *lisp.LVal) *lisp.LVal { panic("boom (host builtin panic requested by the test program)") }})
+	if rc := env.UsePackage(lisp.Symbol(lisp.DefaultLangPackage)); rc.Type == lisp.LError {
+		return nil, fmt.Errorf("use-package: %v", rc)
+	}
 	switch cfg.TRO {
 	case "off":
 		env.Runtime.Debugger = dormantDebugger{}
@@ -332,7 +346,8 @@ func (s *session) probe(env *lisp.LEnv, args *lisp.LVal) *lisp.LVal {
 
 // load evaluates one source text as one top-level evaluation.
 func (s *session) load(name, src string) *lisp.LVal {
-	if s.ctx != nil {
+	s.nload++
+	if s.ctx != nil && s.nload > s.noCtxFirst {
 		return s.env.LoadContext(s.ctx, name, strings.NewReader(src))
 	}
 	return s.env.LoadString(name, src)
